@@ -654,7 +654,9 @@ func (h *httpServerHandler) handleGet(ctx context.Context, w http.ResponseWriter
 	h.getSSEConnectionsLock.Unlock()
 
 	// A sender may have looked this connection up before it was removed: wait for a write in
-	// progress and make later writers fail instead of writing to a finished response.
+	// progress and make later writers fail instead of writing to a finished response. The write
+	// deadline unblocks a writer that is stalled on a dead peer (not every ResponseWriter supports it).
+	_ = http.NewResponseController(w).SetWriteDeadline(time.Now())
 	conn.writeLock.Lock()
 	conn.closed = true
 	conn.writeLock.Unlock()
